@@ -595,6 +595,7 @@ impl World {
             }
         }
         let mut ev_txt: Vec<String> = vec![];
+        let mut maybe_failed: Vec<(RawFd, usize)> = vec![];
         for t in toks {
             match t {
                 Ok(s) if s == "L?" => ev_txt.push(format!("L{}", accepted_fd.unwrap_or(9999))),
@@ -614,8 +615,10 @@ impl World {
                             let ci = self.by_fd.get(&p.fd).cloned();
                             let dead = ci.map(|i| self.clients[i].rd_shut || self.clients[i].closed).unwrap_or(true);
                             if dead {
+                                // (whether the server really WROTE and failed — or found nothing to write on a stale OUT
+                                // registration — is settled below from what the server did with the connection)
                                 if let Some(i) = ci {
-                                    self.clients[i].write_failed = true;
+                                    maybe_failed.push((p.fd, i));
                                 }
                                 "f".to_string()
                             } else {
@@ -637,6 +640,19 @@ impl World {
             if let Some(i) = self.by_fd.remove(fd) {
                 // keep srv_fd for reporting but mark as released
                 self.clients[i].accepted = false;
+            }
+        }
+        // a write to a dead peer that accepted nothing FAILED iff the server treated the connection as dead afterwards:
+        // it released it in this poll, or kept it (requests in flight) without going back to waiting for input. A stale
+        // OUT registration with nothing queued is not a failed write: the server goes back to IN and keeps the connection.
+        {
+            let regs = epoll_registrations(self.epfd);
+            for (fd, i) in maybe_failed {
+                let gone_now = dropped.contains(&fd);
+                let still_out = regs.iter().any(|(f, m)| *f == fd && m & 0x4 != 0);
+                if gone_now || still_out {
+                    self.clients[i].write_failed = true;
+                }
             }
         }
         let w_txt: Vec<String> = w_by_fd.iter().map(|(fd, b)| format!("{}:{}", fd, hx(b))).collect();
